@@ -251,3 +251,95 @@ Qed.
 Theorem is_child_spec ps i : is_child ps i = true <-> exists p, parent_of ps i = Some p.
 Proof. unfold is_child. destruct (parent_of ps i) as [p|]; split; intros H; try discriminate; eauto. destruct H; discriminate. Qed.
 
+
+(* ---- all_children has no duplicates (each descendant is collected exactly once) *)
+Lemma NoDup_app_intro {A} (l1 l2 : list A) :
+  NoDup l1 -> NoDup l2 -> (forall x, In x l1 -> ~ In x l2) -> NoDup (l1 ++ l2).
+Proof.
+  induction l1 as [|a l1 IH]; intros H1 H2 Hd; cbn; [exact H2|].
+  inversion H1 as [|? ? Ha Hl1]; subst. constructor.
+  - rewrite in_app_iff. intros [H|H]; [contradiction|]. apply (Hd a); [left; reflexivity|exact H].
+  - apply IH; auto. intros x Hx. apply Hd. right; exact Hx.
+Qed.
+
+Lemma NoDup_flat_map_intro {A B} (f : A -> list B) (l : list A) :
+  NoDup l -> (forall a, In a l -> NoDup (f a)) ->
+  (forall a1 a2 x, In a1 l -> In a2 l -> a1 <> a2 -> In x (f a1) -> ~ In x (f a2)) ->
+  NoDup (flat_map f l).
+Proof.
+  induction l as [|a l IH]; intros Hl Hf Hd; cbn; [constructor|].
+  inversion Hl as [|? ? Ha Hl']; subst. apply NoDup_app_intro.
+  - apply Hf. left; reflexivity.
+  - apply IH; auto.
+    + intros b Hb. apply Hf. right; exact Hb.
+    + intros a1 a2 x H1 H2. apply Hd; right; assumption.
+  - intros x Hx Hin. apply in_flat_map in Hin. destruct Hin as [b [Hb Hxb]].
+    apply (Hd a b x); auto; [left; reflexivity|right; exact Hb|]. intros ->. contradiction.
+Qed.
+
+Lemma iter_parent_add ps : forall k1 k2 x c, iter_parent k1 ps x = Some c -> iter_parent (k1 + k2) ps x = iter_parent k2 ps c.
+Proof.
+  induction k1 as [|k1 IH]; intros k2 x c H; cbn in *.
+  - inversion H; reflexivity.
+  - destruct (parent_of ps x) as [p|]; [|discriminate]. apply IH. exact H.
+Qed.
+
+(* a line cannot lie below two different children of the same parent *)
+Lemma one_branch ps p c1 c2 x k1 k2 : WFmap ps ->
+  parent_of ps c1 = Some p -> parent_of ps c2 = Some p ->
+  iter_parent k1 ps x = Some c1 -> iter_parent k2 ps x = Some c2 -> c1 = c2.
+Proof.
+  intros W P1 P2 H1 H2.
+  assert (G : forall a b ka kb, parent_of ps a = Some p -> parent_of ps b = Some p ->
+              iter_parent ka ps x = Some a -> iter_parent kb ps x = Some b -> ka <= kb -> a = b).
+  { intros a b ka kb Pa Pb Ha Hb Hle.
+    replace kb with (ka + (kb - ka)) in Hb by lia. rewrite (iter_parent_add ps ka (kb - ka) x a Ha) in Hb.
+    destruct (kb - ka) as [|d] eqn:Ed; [cbn in Hb; inversion Hb; reflexivity|exfalso].
+    cbn in Hb. rewrite Pa in Hb. pose proof (iter_parent_decreases ps W d p b Hb).
+    unfold parent_of in Pb. destruct (nth_error ps b) as [[q|]|] eqn:E; try discriminate. inversion Pb; subst q.
+    specialize (W b p E). lia. }
+  destruct (Nat.le_ge_cases k1 k2) as [Hle|Hge]; [eapply G; eauto|symmetry; eapply G; eauto].
+Qed.
+
+Lemma collect_nodup ps : WFmap ps -> forall fuel p, NoDup (collect fuel ps p).
+Proof.
+  intros W. induction fuel as [|f IH]; intros p; cbn [collect]; [constructor|].
+  apply NoDup_flat_map_intro.
+  - apply kids_nodup.
+  - intros c Hc. constructor; [|apply IH]. intros Hin. apply collect_spec in Hin. destruct Hin as [k [Hk H]].
+    pose proof (iter_parent_decreases ps W k c c H). lia.
+  - intros c1 c2 x H1 H2 Hne Hx1 Hx2. apply Hne.
+    apply nonroot_in_parents_list in H1. apply nonroot_in_parents_list in H2.
+    assert (A1 : exists k, iter_parent k ps x = Some c1).
+    { destruct Hx1 as [<-|Hx1]; [exists 0; reflexivity|]. apply collect_spec in Hx1. destruct Hx1 as [k [_ H]]. eauto. }
+    assert (A2 : exists k, iter_parent k ps x = Some c2).
+    { destruct Hx2 as [<-|Hx2]; [exists 0; reflexivity|]. apply collect_spec in Hx2. destruct Hx2 as [k [_ H]]. eauto. }
+    destruct A1 as [k1 A1]. destruct A2 as [k2 A2]. eapply one_branch; eauto.
+Qed.
+
+Lemma insert_nat_nodup x l : ~ In x l -> NoDup l -> NoDup (insert_nat x l).
+Proof.
+  induction l as [|y r IH]; intros Hx Hl; cbn; [repeat constructor; auto|].
+  destruct (x <=? y); [constructor; assumption|]. inversion Hl as [|? ? Hy Hr]; subst. constructor.
+  - rewrite In_insert. intros [->|H]; [apply Hx; left; reflexivity|contradiction].
+  - apply IH; auto. intros H. apply Hx. right; exact H.
+Qed.
+Lemma sort_nat_nodup l : NoDup l -> NoDup (sort_nat l).
+Proof.
+  induction l as [|x r IH]; intros H; cbn; [constructor|]. inversion H as [|? ? Hx Hr]; subst.
+  apply insert_nat_nodup; [rewrite In_sort; exact Hx|apply IH; exact Hr].
+Qed.
+
+Theorem all_children_nodup ps p : WFmap ps -> NoDup (all_children ps p).
+Proof. intros W. unfold all_children. apply sort_nat_nodup. apply collect_nodup. exact W. Qed.
+
+Lemma sorted_nodup_strict l : StronglySorted le l -> NoDup l -> StronglySorted lt l.
+Proof.
+  induction 1 as [|x r Hs IH Hf]; intros Hn; constructor.
+  - apply IH. inversion Hn; assumption.
+  - inversion Hn as [|? ? Hx Hr]; subst. rewrite Forall_forall in *. intros y Hy. specialize (Hf y Hy).
+    destruct (Nat.eq_dec x y) as [->|Hne]; [contradiction|lia].
+Qed.
+
+Theorem all_children_strictly_ascending ps p : WFmap ps -> StronglySorted lt (all_children ps p).
+Proof. intros W. apply sorted_nodup_strict; [apply all_children_sorted|apply all_children_nodup; exact W]. Qed.
